@@ -39,6 +39,34 @@ package server
 //       consumer closed needs an accepted call of the same group with an
 //       equal or newer epoch that did not return before it was invoked
 //       (refused / invalid / older-epoch calls must leave the holder alone).
+//   (E) with no call in flight, a subscription whose Closed() channel is open
+//       and which is NOT the group entry of the partition object it was
+//       subscribed on must have left its loop by itself: the entry of a
+//       subscription is only ever taken away by its own loop's clean-up (which
+//       passes the hook sub.beforeRemoveGroup first) or by an accepted
+//       Subscribe, which cancels (Close()) the member it replaces before it
+//       returns.  So every such subscription needs a hook passage of its own
+//       (group, consumer id) that fired after its Subscribe was invoked; one
+//       without is a replaced member that was never cancelled.  This is a
+//       state predicate evaluated at once - nothing is waited for - and it
+//       does not depend on what the member's consumer did with a status it may
+//       have been handed (a status on Errors() is not "closed").
+//   (F) fence (rounds marked Fence): with no call in flight two messages are
+//       published one after the other and awaited on the group's holder (the
+//       entry, if its consumer is receiving); a subscription of the group that
+//       is not the entry, whose Closed() channel is still open afterwards and
+//       that was handed the first fence as well, is a second member consuming
+//       the partition (after (E)'s reading of the entry nothing may be
+//       delivered through it: its loop had already reached its clean-up).
+//       "Not handed the fence" is never concluded from elapsed time.
+//
+// Consumers (drain) are parked in ONE select over Messages(), Errors() and
+// Closed() like api.Subscribe's forwarding loop and any in-process user of
+// SubscribeInternal.  What a consumer does with a status: cancel its context
+// (default), Close() + cancel (CloseAfterEnd, what api.Subscribe's deferred
+// Close() does), or record it and keep listening (Keep); a NoErr consumer does
+// not listen on Errors() at all (Messages() and Closed() only; it closes the
+// subscription itself when its context ends).
 
 import (
 	"context"
@@ -73,12 +101,14 @@ type c13Act struct {
 	G             int    `json:"group"`
 	Cid           string `json:"consumer,omitempty"`
 	Epoch         uint64 `json:"epoch,omitempty"`
-	Mode          string `json:"mode,omitempty"` // new | earliest | stopOffset | stopLatest | invalid
+	Mode          string `json:"mode,omitempty"` // new | earliest | recent | stopOffset | stopLatest | invalid
 	A             int    `json:"a,omitempty"`
 	B             int    `json:"b,omitempty"`
 	Gate          bool   `json:"drainGate,omitempty"`     // consumer goroutine starts receiving only when released
 	CloseAfterEnd bool   `json:"closeAfterEnd,omitempty"` // consumer calls sub.Close() after the terminal status (as api.Subscribe does)
 	Linger        bool   `json:"linger,omitempty"`        // consumer does NOT cancel the context when it sees Closed() (the loop stays parked in ReadMessage until quiescence)
+	Keep          bool   `json:"keep,omitempty"`          // consumer records a status and KEEPS listening on all three channels (does not cancel, does not close)
+	NoErr         bool   `json:"noErr,omitempty"`         // consumer does not listen on Errors() (only Messages() and Closed()); only for subscriptions without a stop position
 	Target        string `json:"target,omitempty"`        // latest | random (cancel, close, undrain)
 	All           bool   `json:"all,omitempty"`           // release: all parked clean-ups (else the oldest)
 	Pre           int    `json:"pre,omitempty"`           // schedule perturbation before the action
@@ -91,6 +121,12 @@ func (a c13Act) String() string {
 		s := fmt.Sprintf("sub(g%d,%s,e%d,%s", a.G, a.Cid, a.Epoch, a.Mode)
 		if a.Gate {
 			s += ",gated"
+		}
+		if a.Keep {
+			s += ",keep"
+		}
+		if a.NoErr {
+			s += ",noerr"
 		}
 		return s + ")"
 	case "release":
@@ -109,6 +145,8 @@ type c13Round struct {
 	WaitParked int      `json:"waitParked,omitempty"` // after the round wait until this many clean-ups are parked
 	WaitEnded  bool     `json:"waitEnded,omitempty"`  // after the round wait until undrained self-ending subscriptions ended
 	Quiesce    bool     `json:"quiesce,omitempty"`
+	Settle     bool     `json:"settle,omitempty"` // before the round: every receiving consumer is brought back into its select (probe round trip + yields)
+	Fence      bool     `json:"fence,omitempty"`  // after the round's check: rule (F)
 }
 
 func c13ProgString(p []c13Round) string {
@@ -125,6 +163,9 @@ func c13ProgString(p []c13Round) string {
 		}
 		if r.WaitParked > 0 {
 			fmt.Fprintf(&sb, " +waitParked%d", r.WaitParked)
+		}
+		if r.Fence {
+			sb.WriteString(" +fence")
 		}
 		if r.Quiesce {
 			sb.WriteString(" +quiesce")
@@ -149,6 +190,7 @@ type c13Call struct {
 	Msg     string
 	sub     *c13Sub
 	checked bool
+	gid     int64 // id of the goroutine that made the call (creator of the subscribe loop's goroutine)
 }
 
 type c13Sub struct {
@@ -156,7 +198,11 @@ type c13Sub struct {
 	c             *c13Case
 	call          *c13Call
 	sub           *subscription
+	part          *partition // the partition object the subscription was made on
+	ctx           context.Context
 	cancel        context.CancelFunc
+	keep          bool
+	noErr         bool
 	gate          chan struct{}
 	gateOnce      sync.Once
 	probe         chan chan struct{}
@@ -174,6 +220,12 @@ type c13Sub struct {
 	goneAt       atomic.Int64 // observed (no call in flight) that the group entry is not this subscription
 	lastOff      atomic.Int64
 	nmsgs        atomic.Int64
+	aliveAt      atomic.Int64 // latest stamp at which the subscription was confirmed ACTIVE (taken before the probe)
+	nstatus      atomic.Int64 // statuses taken from Errors()
+	msgAfterEnd  atomic.Int64 // a message was received AFTER the last status (stamp)
+
+	stMu     sync.Mutex
+	statuses []c13Event // every status the consumer took from Errors()
 
 	closureChecked bool
 }
@@ -187,8 +239,42 @@ func (s *c13Sub) open() bool {
 	}
 }
 
+// active: a status taken from Errors() counts as the loop's terminal status
+// (the loop sends one as its last action) unless a message was delivered after
+// it - then the loop is demonstrably still running.
 func (s *c13Sub) active() bool {
-	return s.open() && s.endedAt.Load() == 0 && s.ctxCancelAt.Load() == 0
+	if !s.open() || s.ctxCancelAt.Load() != 0 {
+		return false
+	}
+	e := s.endedAt.Load()
+	return e == 0 || s.msgAfterEnd.Load() > e
+}
+
+func (s *c13Sub) receiving() bool {
+	select {
+	case <-s.gate:
+	default:
+		return false
+	}
+	select {
+	case <-s.done:
+		return false
+	default:
+		return true
+	}
+}
+
+func (s *c13Sub) kind() string {
+	k := "status=>cancel-context"
+	switch {
+	case s.noErr:
+		k = "not-listening-on-Errors()"
+	case s.keep:
+		k = "status=>record-and-keep-listening"
+	case s.closeAfterEnd:
+		k = "status=>Close()+cancel-context(api.Subscribe)"
+	}
+	return k
 }
 
 func (s *c13Sub) undrain() { s.gateOnce.Do(func() { close(s.gate) }) }
@@ -218,6 +304,7 @@ func (s *c13Sub) confirmedActive() (act, ok bool) {
 		return false, true
 	}
 	s.c.n("probes", 1)
+	before := s.c.tick()
 	a, ok := s.alive()
 	if !ok {
 		return false, false
@@ -225,29 +312,61 @@ func (s *c13Sub) confirmedActive() (act, ok bool) {
 	if !a {
 		return false, true
 	}
-	return s.active(), true
+	if !s.active() {
+		return false, true
+	}
+	// ACTIVE when the probe was answered: the loop had not left its body then,
+	// so its clean-up (hook passage) can only fire after the stamp taken before
+	// the probe was sent (rule (E))
+	for {
+		cur := s.aliveAt.Load()
+		if cur >= before || s.aliveAt.CompareAndSwap(cur, before) {
+			break
+		}
+	}
+	return true, true
 }
 
 // drain is the consumer goroutine of one accepted subscription.  It behaves
-// like api.Subscribe's loop: receives messages, and on the terminal status
-// (optionally) closes the subscription.  It never takes the case mutex.
+// like api.Subscribe's loop: ONE select over Messages(), Errors() and Closed();
+// on a status it cancels the context / closes the subscription / keeps
+// listening, depending on the consumer kind.  It never takes the case mutex.
 func (s *c13Sub) drain() {
 	defer close(s.done)
 	var msgs <-chan *client.Message
 	var errs <-chan *status.Status
+	var ctxDone <-chan struct{}
+	if s.noErr {
+		ctxDone = s.ctx.Done()
+	}
 	gate := (<-chan struct{})(s.gate)
 	for {
 		select {
 		case <-gate:
 			gate = nil
 			msgs = s.sub.Messages()
-			errs = s.sub.Errors()
+			if !s.noErr {
+				errs = s.sub.Errors()
+			}
 		case m := <-msgs:
-			s.lastOff.Store(m.Offset)
+			if s.endedAt.Load() != 0 {
+				s.msgAfterEnd.Store(s.c.tick())
+			}
 			s.nmsgs.Add(1)
+			s.lastOff.Store(m.Offset)
 		case st := <-errs:
+			t := s.c.tick()
+			s.stMu.Lock()
+			s.statuses = append(s.statuses, c13Event{t, st.Code().String() + ": " + st.Message()})
+			s.stMu.Unlock()
+			s.nstatus.Add(1)
 			s.endCode.Store(st.Code().String() + ": " + st.Message())
-			s.endedAt.Store(s.c.tick())
+			s.endedAt.Store(t)
+			if s.keep {
+				// an in-process consumer that only records the status: it goes on
+				// until the subscription is cancelled (Closed())
+				continue
+			}
 			if s.closeAfterEnd {
 				s.selfClose.Store(s.c.tick())
 				s.sub.Close()
@@ -263,6 +382,13 @@ func (s *c13Sub) drain() {
 				s.cancel()
 			}
 			return
+		case <-ctxDone:
+			// a consumer that does not listen on Errors() ends its subscription
+			// itself when its context ends (otherwise the loop would stay parked
+			// in its status send for ever)
+			s.selfClose.Store(s.c.tick())
+			s.sub.Close()
+			return
 		case r := <-s.probe:
 			close(r)
 		}
@@ -273,6 +399,7 @@ func (s *c13Sub) drain() {
 type c13Pass struct {
 	Group      string
 	Cid        string
+	Creator    int64 // id of the goroutine that created the exiting loop's goroutine (0: not readable)
 	Fire       int64
 	Release    int64
 	How        string
@@ -341,6 +468,10 @@ type c13Case struct {
 	lifecycle    bool // the program contains partition lifecycle events: subscribes are gated the way api.Subscribe gates them (partition leader, not paused)
 	viaAPI       bool // group subscribes enter through apiServer.SubscribeInternal (the body of the Subscribe RPC) instead of partition.Subscribe
 
+	fencesJudged   int  // rule (F) evaluations that had a holder receiving both fences
+	fencedReplaced int  // ... with >= 1 other accepted subscription of the group (a replaced / ended member) looked at
+	ntReplaced     bool // unit replaced: non-trivial = a fence was judged next to a replaced member
+
 	failed      bool
 	inconc      bool
 	round       int
@@ -397,7 +528,7 @@ func (c *c13Case) logf(t int64, f string, a ...interface{}) {
 // onHook runs in the goroutine of an exiting subscribe loop, at the top of
 // removeGroupSubscriber, with no partition lock held.
 func (c *c13Case) onHook(group, cid string) {
-	p := &c13Pass{Group: group, Cid: cid, Fire: c.tick()}
+	p := &c13Pass{Group: group, Cid: cid, Creator: c13CreatorID(), Fire: c.tick()}
 	c.mu.Lock()
 	c.hookFired++
 	c.passes = append(c.passes, p)
@@ -507,6 +638,13 @@ func (c *c13Case) request(a c13Act) *client.SubscribeRequest {
 		req.StartPosition = client.StartPosition_NEW_ONLY
 	case "earliest":
 		req.StartPosition = client.StartPosition_EARLIEST
+	case "recent": // no stop position, starts over a backlog of the last <= 24 messages
+		start := newest - 24
+		if start < 0 {
+			start = 0
+		}
+		req.StartPosition = client.StartPosition_OFFSET
+		req.StartOffset = start
 	case "stopOffset":
 		start := newest - int64(a.A)
 		if start < 0 {
@@ -557,18 +695,27 @@ func (c *c13Case) doSub(a c13Act) *c13Call {
 	call.Inv = c.tick()
 	var sub *subscription
 	var st *status.Status
-	if c.viaAPI {
-		// the entry point of the Subscribe RPC: apiServer.SubscribeInternal ->
-		// apiServer.subscribe -> partition.Subscribe
-		s, err := c.srv.api.SubscribeInternal(ctx, req)
-		if err != nil {
-			st = status.Convert(err)
+	// The call runs in a goroutine of its own: the subscribe loop is started by
+	// the goroutine that calls Subscribe, so the loop's clean-up (hook passage)
+	// can be attributed to exactly this call by its creator goroutine id.
+	returned := make(chan struct{})
+	go func() {
+		defer close(returned)
+		call.gid = c13GoID()
+		if c.viaAPI {
+			// the entry point of the Subscribe RPC: apiServer.SubscribeInternal ->
+			// apiServer.subscribe -> partition.Subscribe
+			s, err := c.srv.api.SubscribeInternal(ctx, req)
+			if err != nil {
+				st = status.Convert(err)
+			} else {
+				sub = s
+			}
 		} else {
-			sub = s
+			sub, st = p.Subscribe(ctx, req)
 		}
-	} else {
-		sub, st = p.Subscribe(ctx, req)
-	}
+	}()
+	<-returned
 	call.Ret = c.tick()
 	var s *c13Sub
 	if st != nil {
@@ -577,9 +724,11 @@ func (c *c13Case) doSub(a c13Act) *c13Call {
 		call.Msg = st.Message()
 	} else {
 		call.Result = c13Accepted
-		s = &c13Sub{c: c, call: call, sub: sub, cancel: cancel, gate: make(chan struct{}),
-			probe: make(chan chan struct{}), done: make(chan struct{}), closeAfterEnd: a.CloseAfterEnd, linger: a.Linger,
-			forever: a.Mode == "new" || a.Mode == "earliest"}
+		forever := a.Mode == "new" || a.Mode == "earliest" || a.Mode == "recent"
+		s = &c13Sub{c: c, call: call, sub: sub, part: p, ctx: ctx, cancel: cancel, gate: make(chan struct{}),
+			probe: make(chan chan struct{}), done: make(chan struct{}), closeAfterEnd: a.CloseAfterEnd && !a.Keep, linger: a.Linger,
+			keep: a.Keep, noErr: a.NoErr && !a.Keep && forever && !c.lifecycle,
+			forever: forever}
 		s.lastOff.Store(-1)
 		call.sub = s
 		if !a.Gate {
@@ -596,6 +745,9 @@ func (c *c13Case) doSub(a c13Act) *c13Call {
 	c.counts["subscribe_calls"]++
 	c.counts["result_"+call.Result]++
 	c.counts["mode_"+a.Mode]++
+	if s != nil {
+		c.counts["consumer_kind:"+s.kind()]++
+	}
 	c.mu.Unlock()
 	if s != nil {
 		go s.drain()
@@ -675,6 +827,7 @@ func (c *c13Case) wait(cond func() bool) bool {
 			return true
 		}
 		if time.Now().After(deadline) {
+			c13Expired.Add(1)
 			return false
 		}
 		if i < 20 {
@@ -758,7 +911,7 @@ func (c *c13Case) quiesce(final bool) bool {
 	c.mu.Unlock()
 	if !ok && !c.failed {
 		c.inconc = true
-		c.rep.Inconc(fmt.Sprintf("%s case %d: watchdog while waiting for quiescence (loops that should have ended and cleaned up): %s; program %s", c.unit, c.id, state, c13ProgString(c.prog)))
+		c.rep.Inconc(fmt.Sprintf("%s case %d: watchdog while waiting for quiescence (loops that should have ended and cleaned up): %s; %s; program %s", c.unit, c.id, state, c.stuckState(subs), c13ProgString(c.prog)))
 	}
 	return ok
 }
@@ -779,9 +932,13 @@ func (c *c13Case) history() []string {
 		ev = append(ev, c13Event{k.Ret, fmt.Sprintf("call#%d returned: %s", k.Idx, r)})
 	}
 	for _, s := range c.subs {
-		if t := s.endedAt.Load(); t != 0 {
-			code, _ := s.endCode.Load().(string)
-			ev = append(ev, c13Event{t, fmt.Sprintf("sub#%d consumer received terminal status %q (loop ended by itself / by context)", s.Idx, code)})
+		s.stMu.Lock()
+		for _, e := range s.statuses {
+			ev = append(ev, c13Event{e.T, fmt.Sprintf("sub#%d consumer (%s) took status %q from Errors()", s.Idx, s.kind(), e.What)})
+		}
+		s.stMu.Unlock()
+		if t := s.msgAfterEnd.Load(); t != 0 {
+			ev = append(ev, c13Event{t, fmt.Sprintf("sub#%d consumer received a message (offset <= %d) AFTER that status: its loop is still running", s.Idx, s.lastOff.Load())})
 		}
 		if t := s.ctxCancelAt.Load(); t != 0 {
 			ev = append(ev, c13Event{t, fmt.Sprintf("client cancels the context of sub#%d", s.Idx)})
@@ -922,6 +1079,8 @@ func (c *c13Case) check(quiescent bool) {
 	subs := append([]*c13Sub(nil), c.subs...)
 	calls := append([]*c13Call(nil), c.calls...)
 	c.mu.Unlock()
+	// (E) last: what (A)-(D) already name keeps its own fingerprint
+	defer c.checkReplaced()
 
 	for g, group := range c.groups {
 		var gs []*c13Sub
@@ -1126,12 +1285,18 @@ func (c *c13Case) check(quiescent bool) {
 // ---------------------------------------------------------------- run
 
 func (c *c13Case) run() {
+	if c.cutShort() {
+		return
+	}
 	defer c.finish()
 	for ri, r := range c.prog {
 		if c.failed || c.inconc {
 			return
 		}
 		c.round = ri
+		if r.Settle {
+			c.settle()
+		}
 		start := make(chan struct{})
 		var wg sync.WaitGroup
 		for _, a := range r.Acts {
@@ -1167,6 +1332,13 @@ func (c *c13Case) run() {
 				c.concurrent++
 			}
 		}
+		// (E) is a state predicate: judged at once, before anything is waited for
+		if r.WaitParked > 0 || r.WaitEnded {
+			c.checkReplaced()
+			if c.failed {
+				return
+			}
+		}
 		if r.WaitParked > 0 {
 			if !c.wait(func() bool { c.mu.Lock(); defer c.mu.Unlock(); return len(c.parked) >= r.WaitParked }) {
 				c.inconc = true
@@ -1192,6 +1364,9 @@ func (c *c13Case) run() {
 			}
 		}
 		c.check(false)
+		if r.Fence && !c.failed && !c.inconc {
+			c.fenceCheck()
+		}
 		if r.Quiesce && !c.failed {
 			if c.quiesce(false) {
 				c.check(true)
@@ -1213,7 +1388,18 @@ func (c *c13Case) signature() string {
 		if k.Result != c13Accepted {
 			r = k.Result[:1]
 		}
-		fmt.Fprintf(&sb, "%d.g%d%c%+d%s%s ", k.Round, k.G, 'a'+cids[k.Cid], int(k.Epoch)-c13BaseEpoch, k.Mode[:1], r)
+		ck := ""
+		if k.sub != nil {
+			switch {
+			case k.sub.noErr:
+				ck = "/n"
+			case k.sub.keep:
+				ck = "/k"
+			case k.sub.closeAfterEnd:
+				ck = "/a"
+			}
+		}
+		fmt.Fprintf(&sb, "%d.g%d%c%+d%s%s%s ", k.Round, k.G, 'a'+cids[k.Cid], int(k.Epoch)-c13BaseEpoch, k.Mode[:1], r, ck)
 	}
 	for _, p := range c.passes {
 		fmt.Fprintf(&sb, "|%s:%d", p.How[:2], len(p.ActiveSeen))
@@ -1260,6 +1446,9 @@ func (c *c13Case) finish() {
 	nt := c.stalePasses > 0 || c.concurrent > 0
 	if c.lifecycle {
 		nt = c.lcWithActive > 0
+	}
+	if c.ntReplaced {
+		nt = c.fencedReplaced > 0
 	}
 	c.mu.Unlock()
 	if nt {
